@@ -8,7 +8,26 @@ namespace {
 
 enum { K_REGSET = 0, K_SETBITS, K_CLRBITS, K_PUSH, K_POP, K_CLEAR, K_COUNT, K_NKINDS };
 
-const int REGS_EVENT[] = {SCPI_REG_ESR, SCPI_REG_OPER, SCPI_REG_QUES};
+// the register groups as the oracle knows them (written down here, not read from the library's tables);
+// -1 = the group has no such register
+struct Grp {
+    int ev, en, cond, ptf, ntf;
+};
+const Grp GROUPS[] = {
+    {SCPI_REG_ESR, SCPI_REG_ESE, -1, -1, -1},
+    {SCPI_REG_OPER, SCPI_REG_OPERE, SCPI_REG_OPERC, -1, -1},
+    {SCPI_REG_QUES, SCPI_REG_QUESE, SCPI_REG_QUESC, -1, -1},
+#if USE_CUSTOM_REGISTERS
+    // build configuration "user" (sim/userconfig/scpi_user_config.h)
+    {USER_REG_VOLT, USER_REG_VOLTE, USER_REG_VOLTC, USER_REG_VOLTP, USER_REG_VOLTN},   // summary -> QUESC bit 0
+    {USER_REG_AUX, USER_REG_AUXE, USER_REG_AUXC, -1, -1},                              // summary -> OPERC bit 10
+#endif
+};
+int all_event_mask() {
+    int m = 0;
+    for (auto &g : GROUPS) m |= 1 << g.ev;
+    return m;
+}
 
 int esr_class(int code) {
     if (code <= -100 && code >= -199) return ESR_CER;
@@ -38,6 +57,8 @@ struct Run {
     bool unit_wrote = false;
     std::string last_op = "init";
     int qcap;
+    int nested_bits = 0;       // class bits added by pushes made from inside the SRQ callback while the current call was running
+    int depth = 0;
 
     Run(World &w_, Verdict &v_, bool a, bool b) : w(w_), v(v_), c11(a), c12(b), qcap(w_.cfg.queue) { last = snap(); }
 
@@ -111,7 +132,8 @@ struct Run {
     // C12 rule 3: event bits persist across operations that are not defined to clear them
     void check_persist(const Snap &before, const Snap &after, int may_clear_mask, const char *where) {
         if (!c12 || v.violated) return;
-        for (int reg : REGS_EVENT) {
+        for (auto &g : GROUPS) {
+            int reg = g.ev;
             if (may_clear_mask & (1 << reg)) continue;
             int lost = before.r[reg] & ~after.r[reg];
             if (lost) {
@@ -176,12 +198,18 @@ struct Run {
                 int code = (int16_t) val;
                 last_op = fmt("%s-push %d", who, code);
                 bool full = before.count >= qcap;
+                if (depth == 0) nested_bits = 0;
+                depth++;
                 w.fw_push(code, nullptr, 0);
+                depth--;
+                if (depth > 0) nested_bits |= esr_class(code) | ESR_DER;   // (DER: the nested push may have overflowed the queue)
                 Snap after = snap();
                 if (c12 && !v.violated) {
                     int want = before.r[SCPI_REG_ESR] | esr_class(code);
                     int got = after.r[SCPI_REG_ESR];
                     bool ok = got == want || (full && got == (want | ESR_DER));
+                    // a push made from inside the SRQ callback this call caused adds its own class (and DER if it overflowed)
+                    if (!ok && depth == 0 && nested_bits) ok = (got & ~nested_bits) == (want & ~nested_bits) && (got & ~(want | nested_bits)) == 0;
                     if (!ok)
                         v.fail("push-class", fmt("code=%d class=0x%x got=0x%x", code, esr_class(code), got & ~before.r[SCPI_REG_ESR]),
                                fmt("push of %d: ESR 0x%x -> 0x%x, expected 0x%x%s", code, before.r[SCPI_REG_ESR], got, want,
@@ -209,16 +237,28 @@ struct Run {
         }
         Snap after = snap();
         // C12 rule 2: a 0->1 change of a condition bit latches the same bit in the event register
-        if (c12 && !v.violated && (reg == SCPI_REG_OPERC || reg == SCPI_REG_QUESC) && kind <= K_CLRBITS) {
-            int ev = reg == SCPI_REG_OPERC ? SCPI_REG_OPER : SCPI_REG_QUES;
-            int rose = ~before.r[reg] & after.r[reg];
-            if (rose) COUNT("probe_condition_rise");
-            if (rose & ~after.r[ev])
-                v.fail("cond-latch", fmt("reg=%d", reg),
-                       fmt("condition register %d 0x%x -> 0x%x, rising bits 0x%x not latched in event register (0x%x)", reg, before.r[reg],
-                           after.r[reg], rose, after.r[ev]));
-            // condition writes never clear event bits
-            clear_mask = 0;
+        // (whether the bit was written by the firmware or is the summary of a group below it; where the group has a
+        // positive-transition filter, for the bits the filter lets through)
+        if (c12 && !v.violated && kind <= K_CLRBITS) {
+            for (auto &g : GROUPS) {
+                if (g.cond < 0) continue;
+                int rose = ~before.r[g.cond] & after.r[g.cond];
+                if (!rose) continue;
+                COUNT(reg == g.cond ? "probe_condition_rise" : "probe_condition_rise_by_summary_from_below");
+                if (g.ptf >= 0) {
+                    COUNT("probe_condition_rise_in_filtered_group");
+                    rose &= before.r[g.ptf];
+                }
+                if (rose & ~after.r[g.ev]) {
+                    v.fail("cond-latch", fmt("reg=%d", g.cond),
+                           fmt("condition register %d 0x%x -> 0x%x during [%s], rising bits 0x%x not latched in event register %d (0x%x)", g.cond,
+                               before.r[g.cond], after.r[g.cond], last_op.c_str(), rose, g.ev, after.r[g.ev]));
+                    break;
+                }
+            }
+            // condition and filter writes never clear event bits
+            for (auto &g : GROUPS)
+                if (reg == g.cond || reg == g.ptf || reg == g.ntf) clear_mask = 0;
         }
         check_persist(before, after, clear_mask, "fw");
         if (w.in_handler) {
@@ -232,7 +272,7 @@ Run *g_run = nullptr;
 
 // registers a library status command may clear
 int lib_clear_mask(const std::string &pat) {
-    if (pat == "*CLS") return (1 << SCPI_REG_ESR) | (1 << SCPI_REG_OPER) | (1 << SCPI_REG_QUES);
+    if (pat == "*CLS") return all_event_mask();
     if (pat == "*ESR?") return 1 << SCPI_REG_ESR;
     if (pat == "STATus:OPERation[:EVENt]?") return 1 << SCPI_REG_OPER;
     if (pat == "STATus:QUEStionable[:EVENt]?") return 1 << SCPI_REG_QUES;
@@ -304,13 +344,29 @@ void execute_status(const Plan &plan, Verdict &v, bool c11, bool c12) {
         run.observe(where);
         if (!strcmp(where, "msg-end") || !strcmp(where, "input-end")) unit_begin = run.snap();
     };
+    // firmware whose service-request transport raises an error of its own (control channel not connected): the n-th
+    // SRQ callback pushes one error from inside the callback
+    long srq_push_at = plan.k("srq_push_at", 0);
+    int srq_push_code = (int) (int16_t) plan.k("srq_push_code", -310);
+    long srq_calls = 0;
+    bool in_srq_push = false;
     w.srq_observer = [&](World &ww, int val) {
         COUNT("srq_callbacks");
-        if (!c12 || v.violated) return;
-        int stb = ww.reg(SCPI_REG_STB);
-        if (!(val & 0x40) || val != stb)
-            v.fail("srq-value", fmt("val=0x%x stb=0x%x", val, stb),
-                   fmt("service-request callback got 0x%x while STB is 0x%x (MSS must be set and the value must be the current status byte)", val, stb));
+        srq_calls++;
+        if (c12 && !v.violated) {
+            int stb0 = ww.reg(SCPI_REG_STB);
+            if (!(val & 0x40) || val != stb0)
+                v.fail("srq-value", fmt("val=0x%x stb=0x%x", val, stb0),
+                       fmt("service-request callback got 0x%x while STB is 0x%x (MSS must be set and the value must be the current status byte)", val, stb0));
+        }
+        if (srq_push_at > 0 && srq_calls == srq_push_at && !in_srq_push && !v.violated) {
+            in_srq_push = true;
+            COUNT("fault_error_pushed_inside_srq_callback");
+            std::string keep = run.last_op;
+            run.fw_action(K_PUSH, 0, srq_push_code, "srqcb");
+            run.last_op = keep + " (+push inside the SRQ callback)";
+            in_srq_push = false;
+        }
     };
     w.err_observer = [&](World &ww, int code) {
         if (!c12 || v.violated || code == 0) return;
@@ -439,8 +495,21 @@ void generate_status(Rng &r, const GenOpts &g, Plan &p) {
     if (r.chance(1, 8)) p.knob["control_err"] = 1;
     if (r.chance(1, 6)) p.knob["no_reset_cb"] = 1;
     if (r.chance(1, 16)) p.knob["no_interface"] = 1;
+    if (r.chance(1, 6)) {
+        p.knob["srq_push_at"] = r.range(1, 3);
+        p.knob["srq_push_code"] = r.chance(1, 2) ? 310 : gen_code(r);
+    }
     long n = r.chance(1, 10) ? r.range(20, thorough ? 200 : 60) : r.range(1, 14);
     int fw_rate = (int) r.below(4);   // 0: none, 1: low, 2: even, 3: high
+#if USE_CUSTOM_REGISTERS
+    if (r.chance(1, 2)) {
+        // the application presets its transition filters as STATus:PRESet prescribes (PTR all ones, NTR zero) or otherwise
+        p.ops.push_back(Op("fw", {K_REGSET, USER_REG_VOLTP, r.chance(2, 3) ? 0xFFFF : gen_value(r), 0}));
+        p.ops.push_back(Op("fw", {K_REGSET, USER_REG_VOLTN, r.chance(2, 3) ? 0 : gen_value(r), 0}));
+        if (r.chance(1, 2)) p.ops.push_back(Op("fw", {K_REGSET, USER_REG_VOLTE, r.chance(1, 2) ? 0xFFFF : gen_value(r), 0}));
+        if (fw_rate == 0) fw_rate = 2;
+    }
+#endif
     for (long i = 0; i < n; i++) {
         bool fw = fw_rate == 0 ? false : fw_rate == 1 ? r.chance(1, 5) : fw_rate == 2 ? r.chance(1, 2) : r.chance(4, 5);
         if (fw) {
@@ -491,7 +560,7 @@ void exec_c12(const Plan &p, Verdict &v) { execute_status(p, v, false, true); }
 const Property C11 = {
     "C11",
     "The status byte always equals the summary of the registers behind it",
-    {"malloc"},
+    {"malloc", "user"},
     generate_status,
     exec_c11,
     {"probe_enable_written_while_event_set", "probe_sre_written_while_summary_set", "fw_action_inside_handler", "fault_queue_overflow",
@@ -503,7 +572,7 @@ const Property C11 = {
 const Property C12 = {
     "C12",
     "Events are classified, latched and announced as IEEE 488.2 / SCPI prescribe",
-    {"malloc"},
+    {"malloc", "user"},
     generate_status,
     exec_c12,
     {"probe_condition_rise", "srq_callbacks", "fault_queue_overflow", "fw_action_inside_handler"},
